@@ -1,4 +1,4 @@
-import RscelModel.Model.Builtins
+import RscelModel.Model.Conv
 import RscelModel.Model.Lex
 /-
 Line protocol: textual encoding of values / instructions shared with the Rust harness.
@@ -326,5 +326,31 @@ def showLexed (r : Except LexErr Lexed) : String :=
   match r with
   | .error e => s!"E {showLoc e.loc}"
   | .ok l => String.intercalate " " (s!"T:{l.toks.length}" :: l.toks.map fun (t, sp) => s!"{showTok t}@{showSpan sp}")
+
+end Rscel.Wire
+
+namespace Rscel.Wire
+open Rscel
+
+/-- `<kind> <k> <hexin>{k} <val|none>` -/
+def parseExtEntry : List String → Option (ExtEntry × List String)
+  | kind :: k :: ts => do
+    let n ← k.toNat?
+    let (ins, ts) ← parseMany (fun ts => match ts with
+      | h :: r => if h == "-" then some ([], r) else (strOfHex h).map (·, r)
+      | [] => none) n ts
+    match ts with
+    | "none" :: r => pure ({ kind := kind, ins := ins, out := none }, r)
+    | _ => do
+      let (v, r) ← parseVal ts
+      pure ({ kind := kind, ins := ins, out := some v }, r)
+  | _ => none
+
+/-- `X:<n> entry*`: the library answers sent along with a request. -/
+def parseExt : List String → Option (ExtTable × List String)
+  | x :: ts => do
+    let n ← countOf "X" x
+    parseMany parseExtEntry n ts
+  | [] => none
 
 end Rscel.Wire
